@@ -128,6 +128,7 @@ class HidDevice:
 
     # ---- os-level operations ---------------------------------------------
     def os_open(self):
+        self.world.seam_call()
         t = int(round(self.loop.time() * 1e6))
         if not self.present or self.open_failures_left > 0:
             if self.present:
@@ -155,6 +156,7 @@ class HidDevice:
             self.world.log.add(self.loop.time(), "close", self.name, None)
 
     def os_read(self, fd, n):
+        self.world.seam_call()
         if fd != self.fd:
             raise OSError(errno.EBADF, "bad fd")
         if not self.present:
@@ -170,6 +172,7 @@ class HidDevice:
         return self.queue.pop(0)[:n]
 
     def os_write(self, fd, data):
+        self.world.seam_call()
         if fd != self.fd:
             raise OSError(errno.EBADF, "bad fd")
         idx = self.write_count
@@ -346,7 +349,7 @@ class TridonicGW(HidDevice):
         if self.handshake[:2] != [0x00, 0x02]:
             self.handshake_violations.append((now_us, list(self.handshake)))
         rec = {"seq": seq, "unit": unit, "ctrl": ctrl, "mode": mode,
-               "raw": data, "t_us": now_us, "idx": len(self.sends)}
+               "raw": data, "t_us": now_us, "idx": len(self.sends), "gen": self.generation}
         self.sends.append(rec)
         if any(data[8:]):
             self.referee_errors.append(("send-padding", data.hex()))
@@ -457,7 +460,7 @@ class HassebGW(HidDevice):
             return
         value = (data[0] << 8) | data[1]
         rec = {"unit": unit, "bits": 16, "value": value, "raw": data,
-               "t_us": now_us, "idx": len(self.sends)}
+               "t_us": now_us, "idx": len(self.sends), "gen": self.generation}
         self.sends.append(rec)
         r = self.world.rng("hasseb-timing", rec["idx"])
         dur = ff_dur(16)
